@@ -75,3 +75,211 @@ def make_grid(ex, name, env, **kw):
     g.fields["source_grid_spec"] = Opaque(name=name + ".source_grid_spec")
     g.fields["_ds"] = SymDict(name + "._ds", closed=False, owner="self")
     return g
+
+
+# =============================================================================================
+# Abstract state of a Grid for history / cache properties (C08, C11, C15, C05-cache, C19)
+#
+# src(g)            : the source the grid was opened from (uninterpreted identity)
+# uf('name', a...)  : uninterpreted spec function of its arguments - stands for "what a fresh grid computes"
+# optional opaque   : an object slot that may hold None (term == py:None)
+# =============================================================================================
+NONE_U = z3.Const("py:None", USORT)
+TRUE_U = z3.Const("py:True", USORT)
+FALSE_U = z3.Const("py:False", USORT)
+F_INT2U = z3.Function("py:int", V.INT, USORT)
+_UFS = {}
+
+
+def uterm(v):
+    """python / symbolic value -> term of the object sort"""
+    if v is None:
+        return NONE_U
+    if isinstance(v, Opaque):
+        return v.term
+    if isinstance(v, Obj):
+        return v.ident
+    if isinstance(v, str):
+        return E.str_const(v)
+    if isinstance(v, bool):
+        return TRUE_U if v else FALSE_U
+    if isinstance(v, z3.BoolRef):
+        return z3.If(v, TRUE_U, FALSE_U)
+    if isinstance(v, int):
+        return F_INT2U(z3.IntVal(v))
+    if isinstance(v, z3.ExprRef) and v.sort() == V.INT:
+        return F_INT2U(v)
+    if isinstance(v, z3.ExprRef) and v.sort() == USORT:
+        return v
+    if isinstance(v, (tuple, list)):
+        f = _uf("tuple%d" % len(v), len(v))
+        return f(*[uterm(x) for x in v])
+    if isinstance(v, dict) and not v:
+        return z3.Const("py:emptydict", USORT)
+    raise Unsupported(f"object term of {type(v).__name__}")
+
+
+def _uf(name, arity):
+    key = (name, arity)
+    if key not in _UFS:
+        _UFS[key] = z3.Function("uf_" + name, *([USORT] * arity), USORT)
+    return _UFS[key]
+
+
+def opt_opaque(name):
+    o = Opaque(name=name)
+    o.ghost["maybe_none"] = (o.term == NONE_U)
+    return o
+
+
+def as_opt(term, name="v"):
+    o = Opaque(term=term, name=name)
+    o.ghost["maybe_none"] = (term == NONE_U)
+    return o
+
+
+@spec("uf")
+def sp_uf(ex, args, kwargs, node):
+    name = args[0]
+    rest = args[1:]
+    f = _uf(name, len(rest))
+    return as_opt(f(*[uterm(a) for a in rest]) if rest else z3.Const("uf_" + name, USORT), name)
+
+
+@spec("src")
+def sp_src(ex, args, kwargs, node):
+    return Opaque(term=attr_term(ident_of(args[0]), "__src__"), name="src")
+
+
+@spec("same")
+def sp_same(ex, args, kwargs, node):
+    """object identity / equality of abstract values"""
+    return uterm(args[0]) == uterm(args[1])
+
+
+@spec("has")
+def sp_has(ex, args, kwargs, node):
+    d, k = args
+    return d.present(k)
+
+
+@spec("entry")
+def sp_entry(ex, args, kwargs, node):
+    """value stored under a key of a symbolic mapping (None if never materialised)"""
+    d, k = args
+    if k not in d.entries:
+        d.present(k)
+    if k not in d.entries:
+        return None
+    v = d.entries[k][1]
+    if v is V.UNSET:
+        v = ex.fresh_entry(d, k)
+        d.entries[k][1] = v
+    return v
+
+
+_orig_make_grid = make_grid
+
+
+@factory("Grid")
+def make_grid2(ex, name, env, **kw):
+    g = _orig_make_grid(ex, name, env)
+    for slot in ("_face_areas", "_face_jacobian", "_antimeridian_face_indices"):
+        g.fields[slot] = opt_opaque(f"{name}.{slot}")
+    # cached trees: absent, or a tree built earlier with arbitrary parameters
+    which = kw.get("trees", "opaque")
+    for slot, cls in (("_ball_tree", "BallTree"), ("_kd_tree", "KDTree")):
+        if which == "opaque" or which not in ("both", slot):
+            g.fields[slot] = opt_opaque(f"{name}.{slot}")          # any object or None (methods that do not use the trees)
+        else:
+            g.fields[slot] = None if ex.nondet(2) == 0 else make_tree(ex, cls, f"{name}.{slot}")
+    for dname, keys in (("_gdf_cached_parameters", ("gdf", "periodic_elements", "projection", "non_nan_polygon_indices", "engine",
+                                                    "exclude_am", "exclude_nan_polygons", "antimeridian_face_indices")),
+                        ("_poly_collection_cached_parameters", ("poly_collection", "periodic_elements", "projection",
+                                                                "corrected_to_original_faces", "non_nan_polygon_indices",
+                                                                "antimeridian_face_indices")),
+                        ("_line_collection_cached_parameters", ("line_collection", "periodic_elements", "projection"))):
+        g.fields[dname] = SymDict(f"{name}.{dname}", {k: [True, opt_opaque(f"{name}.{dname}.{k}")] for k in keys}, closed=True,
+                                  owner="self")
+    g.fields["_ds"].ghost["entry_factory"] = lambda ex_, d, key: make_dataarray(ex_, f"{d.name}.{key}")
+    return g
+
+
+def make_dataarray(ex, name, data=None, dims=None, attrs=None):
+    da = Obj("DataArray")
+    da.fields["data"] = data if data is not None else Opaque(name=name + ".data")
+    da.fields["dims"] = dims if dims is not None else Opaque(name=name + ".dims")
+    da.fields["attrs"] = attrs if attrs is not None else Opaque(name=name + ".attrs")
+    return da
+
+
+@model("xarray.DataArray", "class:DataArray")
+def xr_dataarray(ex, args, kwargs, node):
+    trusted(ex, "xarray.DataArray(data, dims, attrs): holds exactly the given data / dims / attrs")
+    data = kwargs.get("data", args[0] if args else None)
+    dims = kwargs.get("dims", args[2] if len(args) > 2 else None)
+    attrs = kwargs.get("attrs", None)
+    return make_dataarray(ex, "da", data, dims, attrs)
+
+
+@method("Obj", "values")
+def obj_values(ex, base, node, env, fr):
+    if base.cls == "DataArray":
+        return base.fields["data"]
+    raise Unsupported(f".values of {base.cls}")
+
+
+@model("copy.deepcopy")
+def copy_deepcopy(ex, args, kwargs, node):
+    trusted(ex, "copy.deepcopy: a new object equal to its argument")
+    return as_opt(_uf("deepcopy", 1)(uterm(args[0])), "deepcopy")
+
+
+for _cls in ("BallTree", "KDTree"):
+    def _mk(cls):
+        def ctor(ex, args, kwargs, node):
+            trusted(ex, f"{cls}(grid, coordinates, coordinate_system, distance_metric, reconstruct): records its arguments")
+            names = ["grid", "coordinates", "coordinate_system", "distance_metric", "reconstruct"]
+            vals = dict(zip(names, args))
+            vals.update(kwargs)
+            o = Obj(cls)
+            o.fields["_coordinates"] = vals.get("coordinates")
+            o.fields["coordinate_system"] = vals.get("coordinate_system")
+            o.fields["distance_metric"] = vals.get("distance_metric")
+            o.fields["_source_grid"] = vals.get("grid")
+            return o
+        return ctor
+    MODELS[f"class:{_cls}"] = _mk(_cls)
+    MODELS[f"uxarray.grid.neighbors.{_cls}"] = MODELS[f"class:{_cls}"]
+
+
+def _tree_set_coordinates(ex, base, node, env, fr):
+    def setter(v):
+        trusted(ex, "tree.coordinates setter: switches the element kind the tree answers for (setter verified separately)")
+        base.fields["_coordinates"] = v
+    return setter
+
+
+METHODS[("BallTree", "__setattr__:coordinates")] = _tree_set_coordinates
+METHODS[("KDTree", "__setattr__:coordinates")] = _tree_set_coordinates
+
+
+def make_tree(ex, cls, name):
+    o = Obj(cls)
+    for f in ("_coordinates", "coordinate_system", "distance_metric"):
+        o.fields[f] = Opaque(name=f"{name}.{f}")
+    return o
+
+
+@spec("item")
+def sp_item(ex, args, kwargs, node):
+    """item(x, i): x[i] for tuples; an unconstrained object otherwise (keeps guarded clauses total)"""
+    x, i = args
+    if isinstance(x, (tuple, list)) and isinstance(i, int) and -len(x) <= i < len(x):
+        return x[i]
+    return Opaque(name="no_item")
+
+
+@spec("is_tuple")
+def sp_is_tuple(ex, args, kwargs, node):
+    return isinstance(args[0], tuple)
